@@ -3,6 +3,9 @@
 // Part 1 (writer.go): schema.WriteFileFromReader over lengths x contents x source-reader
 // shapes into a memory store; read back through schema.FileReader and through the
 // harness's own interpreter of doc/schema/bytes.md.
+// Part 1b (faults.go): the same writers (plus WriteFileMap and WriteFileChunks) against a
+// store with one seeded transient ReceiveBlob/StatBlobs failure, delayed and reordered
+// completions and pre-existing blobs: a nil error implies a complete, readable file.
 // Part 2 (trees.go): seeded well-formed file/bytes part trees written as raw JSON;
 // FileReader.ReadAt / Seek+Read / ReadAll compared with the interpreter.
 // Part 3 (dirs.go): static-set splitting with a lowered threshold; DirReader.StaticSet
@@ -37,7 +40,7 @@ const (
 
 func main() {
 	ev.Main("C15", "exploration",
-		"files: lengths {0,1,64Ki+-1,256Ki+-1,288Ki+-1,320Ki+-1,1Mi+-1,1.25Mi+-1,2-5Mi} x content {zeros,random,engineered rollsum windows / periodic} x source reader shape {whole,onebyte,half,short,dataeof,zeroreads}, written with schema.WriteFileFromReader and read back; trees: seeded well-formed file/bytes part trees (depth<=3; blobRef/bytesRef/hole parts, offsets, parts ending before their referent) as raw JSON, every part boundary +-1 and mid-part ReadAt, Seek+Read, full reads against the harness's own bytes.md interpreter; directories: static-set splitting with threshold m in {3,4,7}, member counts around m, m^2, m^3. distinct = per (length,content,reader,replica) file / per tree root ref / per (m,count,variant) directory; non-trivial = file length>0, tree with >=2 parts or a nested/offset part, directory that was split",
+		"files: lengths {0,1,64Ki+-1,256Ki+-1,288Ki+-1,320Ki+-1,1Mi+-1,1.25Mi+-1,2-5Mi} x content {zeros,random,engineered rollsum windows / periodic} x source reader shape {whole,onebyte,half,short,dataeof,zeroreads}, written with schema.WriteFileFromReader and read back; faulted writes: (one transient failure of the k-th chunk / bytes-schema / file-schema ReceiveBlob or k-th StatBlobs, before or after effect) x (learned at once / while the source still delivers / only after source EOF) x store prestate {empty, same file, same content other name, random subset, prefix chunks} x entry point {WriteFileFromReader, WriteFileMap, WriteFileChunks+upload}, nil error => every referenced blob stored and exact read-back, error => retry into the same store must succeed; trees: seeded well-formed file/bytes part trees (depth<=3; blobRef/bytesRef/hole parts, offsets, parts ending before their referent) as raw JSON, every part boundary +-1 and mid-part ReadAt, Seek+Read, full reads against the harness's own bytes.md interpreter; directories: static-set splitting with threshold m in {3,4,7}, member counts around m, m^2, m^3. distinct = per (length,content,reader,replica) file / per tree root ref / per (m,count,variant) directory; non-trivial = file length>0, tree with >=2 parts or a nested/offset part, directory that was split",
 		run)
 }
 
@@ -52,6 +55,7 @@ func run(r *ev.Run) {
 	r.Assume("oracle for file/bytes trees = the harness's own interpreter of doc/schema/bytes.md: denote(node) = concat over parts of zeros(size) | blob[offset:offset+size] | denote(bytesRef)[offset:offset+size]; it parses the JSON with encoding/json and shares no code with pkg/schema")
 	r.Assume("perkeep's in-memory blob store (pkg/blobserver/memory) is trusted as the blob map under test inputs; blob refs of generated blobs are computed with crypto/sha256 directly")
 	r.Assume("chunk size limit = 1 MiB (pkg/schema/filewriter.go maxBlobSize); the other chunker constants only aim the generators and label observations")
+	r.Assume("faulted writes: the store wrapper fails exactly one call with a plain (non-ErrNotExist) error and otherwise behaves as the memory store; a writer error is accepted iff that failure was delivered; waits in the wrapper and the source only shape the schedule")
 	r.Assume("io.Reader / io.ReaderAt / io.Seeker contracts of the Go standard library define what a source reader may do and what a read must return")
 
 	if err := initWindows(); err != nil {
@@ -62,6 +66,7 @@ func run(r *ev.Run) {
 	var jobs []job
 	jobs = append(jobs, writerJobs(r)...)
 	jobs = append(jobs, treeJobs(r)...)
+	jobs = append(jobs, faultJobs(r)...)
 
 	// heavy jobs first
 	sortJobs(jobs)
@@ -98,7 +103,7 @@ func run(r *ev.Run) {
 	close(ch)
 	wg.Wait()
 
-	r.Extra("tier_sizes", map[string]int{"file_cases": countPrefix(jobs, "w"), "tree_cases": countPrefix(jobs, "t")})
+	r.Extra("tier_sizes", map[string]int{"file_cases": countPrefix(jobs, "w"), "tree_cases": countPrefix(jobs, "t"), "faulted_write_cases": countPrefix(jobs, "f")})
 	if os.Getenv("VERIF_ONLY") == "" {
 		requireAll(r)
 	}
@@ -148,6 +153,13 @@ func requireAll(r *ev.Run) {
 		"first-chunk=256Ki", "first-chunk-extended", "hard-cap-chunk=1Mi", "nested-bytes", "tree-depth>=3",
 		"planted-at-min-ignored", "planted-at-min+1-taken", "planted-before-first-chunk-ignored",
 		"single-chunk", "empty-file", "dedup-same-blob-adjacent", "source-returned-data+EOF", "source-returned-zero-read")
+	// part 1b
+	r.Require("fault_kind", fNone, fRecvErr, fRecvErrAfter, fStatErr, fStatErrAfter)
+	r.Require("fault_fired", fRecvErr+"@"+tChunk, fRecvErrAfter+"@"+tChunk, fRecvErr+"@"+tBytes, fRecvErr+"@"+tFile, fStatErr+"@"+tAny, fStatErrAfter+"@"+tPres)
+	r.Require("fault_timing", tmNow, tmWait, tmHeld)
+	r.Require("fault_prestore", preEmpty, preSame, preOther, preSubset, prePrefix)
+	r.Require("fault_api", apiReader, apiFileMap, apiChunks)
+	r.Require("fault_outcome", "error-before-source-eof", "error-after-source-eof", "nil-error-no-fault,complete", "retry-complete")
 	// part 2
 	r.Require("tree_shape",
 		"root=file", "root=bytes", "depth=1", "depth=2", "depth=3",
